@@ -51,15 +51,26 @@ Definition fails_at_first {obs} (st : state obs) (t : text) : bool :=
 Definition reg_from (r : mstate) (acc : list ghdr) : mstate := fold_left (fun r g => fst (add r (g_hdr g))) acc r.
 Definition reg_of (acc : list ghdr) : mstate := reg_from NewModules acc.
 
-(* FindModuleByNamespace over the accepted modules that hold a key of ms.Modules: the module with that namespace, an
-   error when there is none or when two different modules have it *)
+(* FindModuleByNamespace over the accepted modules that hold a key of ms.Modules: go through those that have the
+   namespace -- the same module again changes nothing; another revision of the module found so far makes the answer
+   what the bare name of that module denotes (its most recent loaded revision); a module of another name is the error
+   "matches two or more modules"; none at all is the error "no such namespace" *)
 Definition ns_matches (ns : str) (acc : list ghdr) : list ghdr :=
   filter (fun g => match gkind g with KMod => str_eqb (g_ns g) ns | KSub => false end) acc.
-Definition spec_ns (acc : list ghdr) (ns : str) : nsres :=
-  match ns_matches ns (filed_values (reg_of acc) acc) with
-  | [] => NsNone
-  | g :: r => if forallb (fun x => N.eqb (gid g) (gid x)) r then NsFound (gid g) else NsAmbiguous
+Fixpoint ns_choose (holder : str -> option ghdr) (found : option ghdr) (l : list ghdr) : nsres :=
+  match l with
+  | [] => match found with Some f => NsFound (gid f) | None => NsNone end
+  | g :: r =>
+      match found with
+      | None => ns_choose holder (Some g) r
+      | Some f =>
+          if N.eqb (gid f) (gid g) then ns_choose holder found r
+          else if str_eqb (gname f) (gname g) then ns_choose holder (holder (gname g)) r
+          else NsAmbiguous
+      end
   end.
+Definition spec_ns (acc : list ghdr) (ns : str) : nsres :=
+  ns_choose (holder_of (reg_of acc) acc) None (ns_matches ns (filed_values (reg_of acc) acc)).
 
 (* how the accepted list evolves; no load of a history has the listed shape *)
 Definition next_acc (acc : list ghdr) (o : op) : list ghdr :=
